@@ -87,13 +87,14 @@ Record route_case := {
 Definition model_route (c : route_case) : list obs :=
   let t := rc_tabs c in
   map (fun x => obs_of (snd x) (forwarded_for (rc_sv c) (fst x))
-                       (serve_nocache (o_re t) (o_rep t) (o_ip t) (with_mapper (rc_sv c) (snd x)) (fst x)))
+                       (mux_serve (o_re t) (o_rep t) (o_ip t) (with_mapper (rc_sv c) (snd x)) (fst x)))
       (combine (rc_reqs c) (rc_mappers c)).
 
 Definition spec_route (c : route_case) : list obs :=
   let t := rc_tabs c in
   map (fun x => obs_of (snd x) (forwarded_for (rc_sv c) (fst x))
-                       (serve_spec (o_re t) (o_rep t) (o_ip t) (with_mapper (rc_sv c) (snd x)) (fst x)))
+                       (if reserved_path (fst x) then Failed 404
+                        else serve_spec (o_re t) (o_rep t) (o_ip t) (with_mapper (rc_sv c) (snd x)) (fst x)))
       (combine (rc_reqs c) (rc_mappers c)).
 
 Definition rewritten (reqs : list request) (os : list obs) : bool :=
@@ -150,7 +151,7 @@ Record cache_case := {
   cc_accepted : bool }.
 
 Definition dummy_req : request :=
-  {| rq_host := ""; rq_method := ""; rq_path := ""; rq_rawpath := ""; rq_headers := []; rq_ip := ""; rq_body := 0%Z |}.
+  {| rq_host := ""; rq_method := ""; rq_path := ""; rq_rawpath := ""; rq_headers := []; rq_ip := ""; rq_body := 0%Z; rq_sni := "" |}.
 Definition dummy_sv : server := {| sv_filter := None; sv_rules := []; sv_backends := []; sv_body := 0%Z; sv_xff := false |}.
 
 Definition mem_key (k : key) (l : list key) : bool := existsb (key_eqb k) l.
@@ -175,7 +176,8 @@ Section Crun.
     | CReload s :: rest => crun (nth s svs dummy_sv) [] rest
     | CReq i m (_, _, dump) :: rest =>
         let rq := nth i pool dummy_req in
-        let '(r, c') := search_cached (o_re t) (o_ip t) q sv c rq in
+        let '(r, c') := if reserved_path rq then (Status 404, c)   (* answered before the router: cache untouched *)
+                        else search_cached (o_re t) (o_ip t) q sv c rq in
         let c'' := evict (keepf pinned q pool dump) c' in
         let k := mk_key q rq in
         let stored := negb (isSome (clookup k c)) && isSome (clookup k c') in
@@ -189,7 +191,7 @@ Section Crun.
     | CReload s :: rest => twin_run (nth s svs dummy_sv) rest
     | CReq i m _ :: rest =>
         let rq := nth i pool dummy_req in
-        obs_of m (forwarded_for sv rq) (serve_nocache (o_re t) (o_rep t) (o_ip t) (with_mapper sv m) rq)
+        obs_of m (forwarded_for sv rq) (mux_serve (o_re t) (o_rep t) (o_ip t) (with_mapper sv m) rq)
           :: twin_run sv rest
     end.
 End Crun.
